@@ -10,38 +10,36 @@ Property theorems only.  Model: `Model/Match.lean` (`ofp_match`), `Model/FlowTab
 key), `Model/MatchV.lean` (the code variants); standard: `Spec/OF10Match.lean`; lemmas: `Proofs/MatchBits`, `Match`, `FlowTable`,
 `Subsume`, `MatchSubsume`, `MatchSelf`, `MatchV`.
 
-**Which variant is the code.**  `v : Variant` records which of the repairs D37 / D38 / D26 / D36 a tree has.  `/repo` HEAD has the first three:
-it is `Variant.repaired` (the harness establishes that on every run by probing the three witness inputs, and validates it on
-every case).  `Variant.head` — and with it the un-suffixed functions `ofWire`, `extract`, `fromPacket`, `Entry.effectivePriority`,
-`regular`, `FlowOk` of `Model/Match.lean` — is the tree *before* those commits; theorems about it are kept at the end under
-"reverted tree" as regression witnesses (a revert of a repair makes the harness pick that variant, and the `_defect` theorems there
-say which inputs then fail).
+**Which variant is the code.**  `v : Variant` records which of the repairs D37 / D38 / D26 / D36 / C03-K7 a tree has.  `/repo` HEAD has all
+five: it is `Variant.current` (the harness establishes that on every run by probing the real code on one witness input per repair,
+prints the result in the evidence and validates it on every case).  `Variant.full` (without C03-K7), `Variant.repaired` (without D36
+either) and `Variant.head` (none — the un-suffixed functions `ofWire`, `extract`, `fromPacket`, `Entry.effectivePriority`, `regular`,
+`FlowOk` of `Model/Match.lean`) are superseded trees; theorems about them are kept as regression statements (a revert of a repair
+makes the harness pick that variant, and the `_defect` theorems say which inputs then fail).
 
-**The property, clause by clause, for the code as it stands** (section "the code as it stands"):
+**The property, clause by clause, for the code as it stands** (section "the code as it stands: `Variant.current`"):
 
 | clause of C03 | theorem |
 |---|---|
-| a frame matches iff every non-wildcarded field whose prerequisites are met equals the header field, IP under the prefix mask | `matches_iff_repaired` |
-| fields extracted as the specification prescribes (VLAN, ARP, ICMP, fragments) | `extract_ok_repaired` |
-| lookup returns the matching entry of highest priority; miss only when none matches — after every history of table operations | `history_lookup_wire_repaired`, `lookup_spec_wire_repaired`, `miss_iff_wire_repaired`, `history_lookup_sequence_wire` |
-| exact-match entries outrank every wildcarded one | `exact_outranks_repaired`, `exact_iff_repaired` |
-| (mechanism) table sorted after every history, insertion position | `table_sorted_repaired`, `add_position`, `removal_sublist` |
-| (used by C04) non-strict selection is subsumption | `subsumes_iff_repaired`, `subsumes_iff_forall` |
-| a flow built from a packet matches it and is exact | `flow_from_packet_matches_repaired`, `flow_from_packet_exact_repaired` |
+| a frame matches iff every non-wildcarded field whose prerequisites are met equals the header field, IP under the prefix mask | `matches_iff_current` |
+| fields extracted as the specification prescribes (VLAN, ARP, ICMP, fragments) | `extract_ok_current`, `extract_rarp_current` |
+| lookup returns the matching entry of highest priority; miss only when none matches — after every history of table operations | `history_lookup_wire_current`, `lookup_spec_wire_current`, `miss_iff_wire_current`, `history_lookup_sequence_wire` |
+| exact-match entries outrank every wildcarded one | `exact_outranks_current`, `exact_iff_current` |
+| (mechanism) table sorted after every history, insertion position | `table_sorted_current`, `add_position`, `removal_sublist` |
+| (used by C04) non-strict selection is subsumption | `subsumes_iff_current`, `subsumes_iff_forall` |
+| a flow built from a packet matches it and is exact | `flow_from_packet_current`, `flow_from_packet_exact_current` |
 
-The same clauses for `Variant.full` = HEAD + `fixes/C04_D36_tos_dscp.diff` (ToS reduced to DSCP in extraction and comparison), with no
-hypothesis about ECN bits left: `matches_iff_full`, `extract_ok_full`, `lookup_spec_wire_full`, `history_lookup_wire_full`,
-`subsumes_iff_full`, `flow_from_packet_full`, `flow_from_packet_exact_full`.  The harness selects `Variant.full` as soon as the tree behaves
-that way on the ToS witness.
+What these theorems assume: complete frames (`regularG false`; `irregular_l4_witness`, `irregular_l3_witness` show what the code does
+otherwise — the standard is silent there) and 16-bit priorities.  Nothing about ECN bits, ARP opcodes, wildcarded prerequisite fields.
 
-**From bytes.**  The theorems above are stated on frame descriptions `PHdr`.  `Spec/OF10Frame.lean` (`Spec.Frame.parse`) reads the
-description off the *bytes* of a frame per 802.3 / 802.2 / 802.1Q / RFC 791 (one tag type, 0x8100; fragment = MF or offset ≠ 0) —
-the harness gives model and standard this description, not the packet library's —, `frame_complete_regular` shows that complete frames
-meet the side condition, and `extract_ok_bytes_repaired`, `lookup_spec_bytes_repaired`, `matches_iff_bytes_full`,
-`lookup_spec_bytes_full` are the clauses with a byte sequence in place of the description.
-
-What the `_repaired` theorems still assume: ToS values without ECN bits (D36, `matches_tos_defect`, gone with `Variant.full`), complete frames (`regularG false`;
-`irregular_l4_witness`, `irregular_l3_witness` show what the code does otherwise — the standard is silent there), 16-bit priorities.
+**From bytes.**  All of the above is stated on frame descriptions `PHdr`.  `Spec/OF10Frame.lean` (`Spec.Frame.parse`) says which
+description a byte sequence is per 802.3 / 802.2 / 802.1Q / RFC 791 / 793 (one tag type, 0x8100; fragment = MF or offset ≠ 0; TCP ports
+whatever the options are).  `frame_complete_regular`: the description of a complete frame satisfies `regularG false`.  The `_bytes_`
+theorems are the clauses instantiated at `p = ` that description — **and no more than that**: in Lean `fr` enters only through
+`Spec.Frame.parse fr = some (p, true)`.  That the *code's own* path from bytes to packet objects arrives at a description for which the
+model computes what the code computes is not a theorem; it is the harness's tie: the code gets the bytes, the model gets
+`Spec.Frame.parse`'s description of the same bytes (the driver parses them itself), and every extracted field, match result and lookup
+is compared on every case.
 
 **Two readings of "exact match (has no wildcards)".**  `Spec.exact` is the literal one (all 22 wildcard bits zero); `Spec.exactSig`
 the prerequisite-rule one (no wildcard on a field the match could compare; wildcard bits of ignored fields do not count — what the
@@ -213,10 +211,119 @@ theorem spec_frags_irrelevant (g : Bool) (p : PHdr) (ip : Option Nat)
     | some l => by_cases hs : l.snapOui = some 0 <;> simp [extractG, hs]
 
 
-/-! ## the code as it stands: `Variant.repaired` (`/repo` HEAD)
+/-! ## the code as it stands: `Variant.current` (`/repo` HEAD — repairs D37, D38, D26, D36 and C03-K7)
 
-The instances of the theorems above and of the `_v` theorems below (`Proofs/MatchV.lean`) at the variant the code is.  No hypothesis
-about wildcarded prerequisite fields, about ARP opcodes or about which flows may be exact is left. -/
+The instances of the theorems above and of the `_v` theorems below (`Proofs/MatchV.lean`) at the variant the code is — the harness
+establishes which variant that is on every run by probing the real code on one witness input per repair, prints it in the evidence
+(`code_variant`) and validates it on every case.  No hypothesis about wildcarded prerequisite fields, about ARP opcodes, about ECN
+bits or about which flows may be exact is left: the clauses hold for every transmitted match, every flow with a 16-bit priority and every
+complete frame (`regularG false`). -/
+
+/-- **Matching**: for every match received in a flow-mod and every complete frame, the code's lookup test is the standard's matching on
+    the extracted 12-tuple -/
+theorem matches_iff_current (r : OfMatch) (p : PHdr) (port : Nat) (hr : regularG false p = true) :
+    Variant.current.mww false (Variant.current.ofWire r) (Variant.current.pktMatch p port) = Spec.matchHdr r (Spec.headers p port) :=
+  Variant.current.accepts_packet r p port (fun h => absurd h (by decide)) (fun h => absurd h (by decide)) hr
+
+/-- **Extraction**: every field `from_packet` assigns equals the standard's header field (nw_tos is the DSCP value), every field it
+    leaves unassigned is zero in the standard's 12-tuple -/
+theorem extract_ok_current (p : PHdr) (port : Nat) (hr : regularG false p = true) :
+    ExtractOk (Variant.maskP p) (Variant.current.pktHeaders true p (some port)) (Spec.headers p port) ∧
+    ∀ t, (Variant.current.pktHeaders true p (some port)).nwTos = some t → t % 4 = 0 := by
+  have hg : Variant.current.guardP p = p := Variant.guardP_regular _ _ p hr
+  have he : Variant.current.pktHeaders true p (some port) = Variant.current.extract true (Variant.maskP p) (some port) := by
+    rw [Variant.pktHeaders_eq _ rfl, hg]; exact (Variant.extractG_maskP _ _ _ _).symm
+  constructor
+  · rw [he, ← Variant.headers_maskP p port]
+    exact Variant.current.extract_ok (Variant.maskP p) port (by unfold Variant.regular; rw [Variant.regularG_maskP]; exact hr)
+  · intro t ht
+    rw [Variant.pktHeaders_eq _ rfl] at ht
+    simp only [Variant.maskO, Option.map_eq_some_iff] at ht
+    obtain ⟨a, _, rfl⟩ := ht
+    exact Variant.dscpOf_mod a
+
+/-- **Exactness**: a received flow is exact-match for the switch exactly when it is exact under the prerequisite rule -/
+theorem exact_iff_current (r : OfMatch) : Variant.current.isWildcarded (Variant.current.ofWire r) = !Spec.exactSig r :=
+  Variant.current.exact_agree r (fun h => absurd h (by decide))
+
+open TableOps in
+/-- the table is sorted by effective priority after every history -/
+theorem table_sorted_current (ops : List (Op α)) :
+    SortedBy Variant.current.effectivePriority (run Variant.current.effectivePriority Variant.current.mww true ops) :=
+  history_sorted Variant.current true ops
+
+open TableOps in
+/-- exact-match entries stand before every wildcarded one after every history (16-bit priorities) -/
+theorem exact_outranks_current (ops : List (Op α)) (hp : ∀ e ∈ added ops, e.priority ≤ 0xffff) (i j : Nat)
+    (hi : i < (run Variant.current.effectivePriority Variant.current.mww true ops).length) (hj : j < (run Variant.current.effectivePriority Variant.current.mww true ops).length)
+    (he : Variant.current.isWildcarded (run Variant.current.effectivePriority Variant.current.mww true ops)[i].mtch = false)
+    (hw : Variant.current.isWildcarded (run Variant.current.effectivePriority Variant.current.mww true ops)[j].mtch = true) : i < j :=
+  history_exact_first Variant.current true ops hp i j hi hj he hw
+
+/-- what a transmitted flow must satisfy: a 16-bit priority -/
+theorem flowOk_current (f : Spec.Flow) (hp : f.priority ≤ 0xffff) : Variant.current.FlowOk f :=
+  ⟨hp, fun h => absurd h (by decide), fun h => absurd h (by decide), fun h => absurd h (by decide)⟩
+
+/-- **Lookup**, table built from a list of flow-mods: the answer is a flow that matches per the standard and that no matching flow
+    outranks (exact flows — prerequisite-rule reading — above every priority); a miss exactly when none matches -/
+theorem lookup_spec_wire_current (fs : List Spec.Flow) (hfs : ∀ f ∈ fs, f.priority ≤ 0xffff)
+    (p : PHdr) (port : Nat) (hr : regularG false p = true) :
+    Spec.IsBestSig fs (Spec.headers p port) ((Variant.current.entryForPacket (Variant.current.install fs) p port).map (·.data)) :=
+  Variant.current.install_isBest fs (fun f hf => flowOk_current f (hfs f hf)) p port hr (fun h => absurd h (by decide))
+
+/-- the same under the **literal** reading of "exact match" (`Spec.exact`), for flows that set no wildcard bit on an ignored field -/
+theorem lookup_spec_wire_literal_current (fs : List Spec.Flow) (hfs : ∀ f ∈ fs, f.priority ≤ 0xffff)
+    (hx : ∀ f ∈ fs, Spec.exactSig f.mtch = Spec.exact f.mtch) (p : PHdr) (port : Nat) (hr : regularG false p = true) :
+    Spec.IsBest fs (Spec.headers p port) ((Variant.current.entryForPacket (Variant.current.install fs) p port).map (·.data)) :=
+  isBest_of_isBestSig fs _ _ hx (lookup_spec_wire_current fs hfs p port hr)
+
+/-- a miss ⇔ no installed flow matches the frame per the standard -/
+theorem miss_iff_wire_current (fs : List Spec.Flow) (hfs : ∀ f ∈ fs, f.priority ≤ 0xffff)
+    (p : PHdr) (port : Nat) (hr : regularG false p = true) :
+    Variant.current.entryForPacket (Variant.current.install fs) p port = none ↔
+      ∀ f ∈ fs, Spec.matchHdr f.mtch (Spec.headers p port) = false := by
+  have h := lookup_spec_wire_current fs hfs p port hr
+  constructor
+  · intro hn; rw [hn] at h; exact h
+  · intro hall
+    cases hq : Variant.current.entryForPacket (Variant.current.install fs) p port with
+    | none => rfl
+    | some e =>
+      rw [hq] at h
+      have := hall _ h.1
+      rw [h.2.1] at this; cases this
+
+open TableOps in
+/-- **Lookup after every history** of table operations -/
+theorem history_lookup_wire_current (bothWays : Bool) (ops : List (Op Spec.Flow))
+    (hadd : ∀ e ∈ added ops, e = Variant.current.toEntry e.data ∧ e.data.priority ≤ 0xffff)
+    (p : PHdr) (port : Nat) (hr : regularG false p = true) :
+    Spec.IsBestSig ((run Variant.current.effectivePriority Variant.current.mww bothWays ops).map (·.data)) (Spec.headers p port)
+      ((Variant.current.entryForPacket (run Variant.current.effectivePriority Variant.current.mww bothWays ops) p port).map (·.data)) :=
+  history_lookup_wire Variant.current bothWays ops (fun e he => ⟨(hadd e he).1, flowOk_current _ (hadd e he).2⟩) p port hr
+    (fun h => absurd h (by decide))
+
+/-- **Subsumption**: `a.matches_with_wildcards(b)` on two received flows is the standard's subsumption -/
+theorem subsumes_iff_current (a b : OfMatch) (hbw : b.wildcards < 2 ^ 22) :
+    Variant.current.mww true (Variant.current.ofWire a) (Variant.current.ofWire b) = true ↔
+      ∀ h : Spec.Headers, Spec.matchHdr b h = true → Spec.matchHdr a h = true := by
+  rw [Variant.current.subsumes_code a b (fun h => absurd h (by decide)) (fun h => absurd h (by decide)) (fun h => absurd h (by decide)) hbw]
+  exact Spec.subsumes_forall a b
+
+/-- a flow built by `from_packet` / `pack(flow_mod=True)` from any frame description — regular or not — matches that frame on the switch -/
+theorem flow_from_packet_current (sf : Bool) (p : PHdr) (ip : Option Nat) :
+    Variant.current.mww false (Variant.current.ofWire (packFlowMod (fromHeaders (Variant.current.pktHeaders sf p ip))))
+      (fromHeaders (Variant.current.pktHeaders sf p ip)) = true := Variant.current.selfflow_mww sf p ip
+
+/-- … and, built from a complete frame arriving on a port, it is exact-match for the switch -/
+theorem flow_from_packet_exact_current (p : PHdr) (port : Nat) (hr : regularG false p = true) :
+    Variant.current.isWildcarded (Variant.current.ofWire (packFlowMod (Variant.current.pktMatch p port))) = false :=
+  Variant.current.selfflow_exact_pkt rfl p port hr
+
+/-! ## a superseded tree: `Variant.repaired` (repairs D37, D38, D26; D36 and C03-K7 still open)
+
+Not `/repo` HEAD any more (D36 landed as fe3a4cf, C03-K7 as 69b444a); kept because a revert of those commits makes the harness select
+this variant again, and these are then the statements that hold: the ToS hypotheses (`% 4 = 0`) are what D36 removed. -/
 
 /-- **Matching.**  For every match received in a flow-mod and every complete frame, the code's lookup test is the standard's
     matching on the extracted 12-tuple (ToS values without ECN bits: D36). -/
@@ -307,10 +414,10 @@ theorem flow_from_packet_exact_repaired (p : PHdr) (port priority : Nat) (hr : r
   have h := Variant.repaired.selfflow_exact rfl p port hr
   exact ⟨h, by simp [Variant.effectivePriority, h]⟩
 
-/-! ## all four repairs: `Variant.full` (`/repo` HEAD + `fixes/C04_D36_tos_dscp.diff`)
+/-! ## a superseded tree: `Variant.full` (repairs D37, D38, D26, D36; C03-K7 still open)
 
-With the ToS repair (extraction and comparison reduced to the six DSCP bits) nothing is assumed about ECN bits any more: the clauses of
-the property hold for every transmitted match, every flow with a 16-bit priority and every complete frame. -/
+`/repo` between fe3a4cf and 69b444a.  On complete frames it behaves as `Variant.current` does (`current_eq_full_regular`: the guard of
+C03-K7 changes nothing there); it differs on the packet library's description of a RARP frame (`extract_rarp_defect`). -/
 
 /-- **Matching**, no hypothesis on the match at all -/
 theorem matches_iff_full (r : OfMatch) (p : PHdr) (port : Nat) (hr : regularG false p = true) :
